@@ -44,6 +44,7 @@ type TermInCommittee struct {
 	onCommit                        OnInCommitteeCommitCallback
 	messageFactory                  *messagesfactory.MessageFactory
 	myMemberId                      primitives.MemberId
+	instanceId                      primitives.InstanceId
 	committeeMembers                []interfaces.CommitteeMember
 	otherCommitteeMemberIds         []primitives.MemberId
 	preparedLocally                 *preparedLocallyProps
@@ -98,6 +99,7 @@ func NewTermInCommittee(log L.LHLogger, config *interfaces.Config, state *state.
 		otherCommitteeMemberIds: otherCommitteeMemberIds,
 		messageFactory:          messageFactory,
 		myMemberId:              myMemberId,
+		instanceId:              config.InstanceId,
 		logger:                  log,
 	}
 
@@ -419,6 +421,9 @@ func (tic *TermInCommittee) validatePreprepare(ppm *interfaces.PreprepareMessage
 
 	header := ppm.Content().SignedHeader()
 	sender := ppm.Content().Sender()
+	if header.MessageType() != protocol.LEAN_HELIX_PREPREPARE || header.InstanceId() != tic.instanceId {
+		return errors.Errorf("signed header is not a PREPREPARE of this instance (type %v, instance %v)", header.MessageType(), header.InstanceId())
+	}
 	if err := tic.keyManager.VerifyConsensusMessage(header.BlockHeight(), header.Raw(), sender); err != nil {
 		tic.logger.ConsensusTrace("failed to verify preprepare - maybe a committee mismatch?", err, log.Stringable("sender", sender))
 
@@ -466,6 +471,10 @@ func (tic *TermInCommittee) HandlePrepare(pm *interfaces.PrepareMessage) {
 	header := pm.Content().SignedHeader()
 	sender := pm.Content().Sender()
 
+	if header.MessageType() != protocol.LEAN_HELIX_PREPARE {
+		tic.logger.Info("LHMSG RECEIVED PREPARE IGNORE - signed header has type %v", header.MessageType())
+		return
+	}
 	if !tic.isCommitteeMember(sender.MemberId()) {
 		tic.logger.Info("LHMSG RECEIVED PREPARE IGNORE - sender %s is not a member of this term's committee", Str(sender.MemberId()))
 		return
@@ -554,6 +563,10 @@ func (tic *TermInCommittee) HandleCommit(cm *interfaces.CommitMessage) {
 	header := cm.Content().SignedHeader()
 	sender := cm.Content().Sender()
 
+	if header.MessageType() != protocol.LEAN_HELIX_COMMIT {
+		tic.logger.Info("LHMSG RECEIVED COMMIT IGNORE - signed header has type %v", header.MessageType())
+		return
+	}
 	if !tic.isCommitteeMember(sender.MemberId()) {
 		tic.logger.Info("LHMSG RECEIVED COMMIT IGNORE - sender %s is not a member of this term's committee", Str(sender.MemberId()))
 		return
@@ -674,6 +687,12 @@ func (tic *TermInCommittee) isViewChangeValid(expectedLeaderFromNewView primitiv
 	vcmView := header.View()
 	preparedProof := header.PreparedProof()
 
+	if header.MessageType() != protocol.LEAN_HELIX_VIEW_CHANGE || header.InstanceId() != tic.instanceId {
+		return errors.Errorf("signed header is not a VIEW_CHANGE of this instance (type %v, instance %v)", header.MessageType(), header.InstanceId())
+	}
+	if preparedProof != nil && len(preparedProof.Raw()) > 0 && preparedProof.PreprepareBlockRef().InstanceId() != tic.instanceId {
+		return errors.Errorf("prepared proof is of instance %v", preparedProof.PreprepareBlockRef().InstanceId())
+	}
 	if !tic.isCommitteeMember(sender.MemberId()) {
 		return errors.Errorf("sender %s is not a member of this term's committee", Str(sender.MemberId()))
 	}
@@ -733,6 +752,11 @@ func (tic *TermInCommittee) HandleNewView(nvm *interfaces.NewViewMessage) {
 
 	if tic.State.View() > nvmHeader.View() {
 		tic.logger.Info("LHMSG RECEIVED NEW_VIEW IGNORE - current view %d is higher than message view %d", tic.State.View(), nvmHeader.View())
+		return
+	}
+
+	if nvmHeader.MessageType() != protocol.LEAN_HELIX_NEW_VIEW {
+		tic.logger.Info("LHMSG RECEIVED NEW_VIEW IGNORE - signed header has type %v", nvmHeader.MessageType())
 		return
 	}
 
